@@ -25,7 +25,7 @@ META = {
 }
 
 plan = e1.plan
-EXTRA = ['range_int', 'range_float', 'vol_int', 'vol_str', 'tag_int', 'hasconv']
+EXTRA = ['range_int', 'range_float', 'vol_int', 'vol_str', 'vol_tuple', 'vol_list', 'vol_range', 'tag_int', 'hasconv']
 
 
 def expressions(tier):
@@ -171,7 +171,7 @@ def _sig(kind, ast, root, ov):
 
 def _type_root(ast):
     lv = e1.leaves_of(ast)
-    if lv & {'range_int', 'range_float'}:
+    if lv & {'range_int', 'range_float', 'vol_range'}:
         return 'pane.types.Range'
     if lv & {'vol_int', 'vol_str'}:
         return 'pane.types.ValueOrList'
